@@ -203,6 +203,7 @@ theorem sess_shapeA (gen : Nat → Bytes) (hinj : Function.Injective gen) (idle 
     (hL1 : live1 = s.live ∨ (live1 = erase s.live q.ck ∧ ∃ d0, lookup sess W = some (some ⟨q.ck, d0⟩)))
     (hT : TokenOrigin gen ntok ntok' s sess q o token W)
     (hnodel : q.del = false ∨ q.ck = [] ∨ o.fired = true)
+    (hsu : scfg.single = true → isSafe q.method = false → o.gens = [token])
     (hprobe : isSafe q.method = true → o.fired = false → probeHas o token (s.now + scfg.idle) = true) :
     ∃ live2, cookieClause scfg { s with issued := s.issued ++ o.gens } q o
         (afterDel scfg q o (afterGens scfg { s with issued := s.issued ++ o.gens } o live1)) = .ok live2 ∧
@@ -215,7 +216,8 @@ theorem sess_shapeA (gen : Nat → Bytes) (hinj : Function.Injective gen) (idle 
   refine Exists.intro ?wA ⟨?hA1, ?hA2⟩
   case hA1 =>
     rw [afterDel_id _ _ _ _ hnodel]
-    exact cookie_some scfg { s with issued := s.issued ++ o.gens } q o _ token hck hne hiss hT.keep hprobe
+    exact cookie_some scfg { s with issued := s.issued ++ o.gens } q o _ token hck hne hiss hT.keep
+      (fun h1 h2 => by rw [hsu h1 h2]; simp) hprobe
   case hA2 =>
     refine sessOK_step gen idle ntok ntok' now sess sess' s.live _ W (some ⟨token, now + idle⟩) hS hnn hlook hW ?_ ?_
     · intro k d hkd
@@ -246,6 +248,7 @@ theorem sess_shapeA' (gen : Nat → Bytes) (hinj : Function.Injective gen) (idle
     (hck : o.ck = some token) (hne : token ≠ [])
     (hT : TokenOrigin gen ntok ntok' s sess q o token R)
     (hsc : o.gens = [] → o.sc = some R)
+    (hsu : scfg.single = true → isSafe q.method = false → o.gens = [token])
     (hfired : o.fired = true) :
     ∃ live2, cookieClause scfg { s with issued := s.issued ++ o.gens } q o
         (afterDel scfg q o (afterGens scfg { s with issued := s.issued ++ o.gens } o s.live)) = .ok live2 ∧
@@ -259,6 +262,7 @@ theorem sess_shapeA' (gen : Nat → Bytes) (hinj : Function.Injective gen) (idle
   case hA1 =>
     rw [afterDel_id _ _ _ _ (Or.inr (Or.inr hfired))]
     exact cookie_some scfg { s with issued := s.issued ++ o.gens } q o _ token hck hne hiss hT.keep
+      (fun h1 h2 => by rw [hsu h1 h2]; simp)
       (fun _ h => by rw [hfired] at h; cases h)
   case hA2 =>
     apply sessOK_sub gen idle ntok ntok' now sess sess' _ _ hnn hsub
